@@ -149,6 +149,25 @@ func (c *Ctx) Func(pkg, name string) *load.FuncInfo {
 		}
 	}
 	if fi == nil {
+		// an unexported function turned into a method (or back): the one declaration of that name in the package
+		base := name
+		if i := strings.LastIndex(base, "."); i >= 0 {
+			base = base[i+1:]
+		}
+		if base != "" && !ast.IsExported(base) {
+			var found []*load.FuncInfo
+			for _, g := range c.P.Funcs() {
+				if g.Pkg.PkgPath == pkg && g.Obj.Name() == base {
+					found = append(found, g)
+				}
+			}
+			if len(found) == 1 {
+				c.Notes = append(c.Notes, "anchor "+name+" resolved to "+scopeShortName(found[0])+" (same name, receiver changed)")
+				return found[0]
+			}
+		}
+	}
+	if fi == nil {
 		c.Fail("anchor %s.%s does not resolve", pkg, name)
 	}
 	return fi
@@ -647,4 +666,93 @@ func (c *Ctx) liftedAway0(fi *load.FuncInfo) bool {
 		}
 	}
 	return n > 0
+}
+
+// hostOf returns the function whose body holds n: fi itself or one of the helpers the engine expanded into it.
+func (c *Ctx) hostOf(fi *load.FuncInfo, n ast.Node) *load.FuncInfo {
+	if contains(fi.Decl.Body, n) {
+		return fi
+	}
+	for _, h := range c.E.FnOf(fi).Expanded() {
+		if contains(h.Decl.Body, n) {
+			return h
+		}
+	}
+	return fi
+}
+
+// originCall follows e (an identifier of host with one defining assignment) to the call that produced its value,
+// looking through in-repo helpers: for `a, b, err := helper(...)` the k-th result is followed into the helper's
+// returns (all of its non-nil k-th results must come from the same callee), a helper's parameter to the argument.
+func (c *Ctx) originCall(host *load.FuncInfo, e ast.Expr, depth int) (*ast.CallExpr, *load.FuncInfo) {
+	info := host.Pkg.TypesInfo
+	id, ok := ast.Unparen(e).(*ast.Ident)
+	if !ok || depth > 4 {
+		if call, isCall := ast.Unparen(e).(*ast.CallExpr); isCall {
+			return call, host
+		}
+		return nil, host
+	}
+	obj := info.ObjectOf(id)
+	var def *ast.AssignStmt
+	k := -1
+	nDef := 0
+	ast.Inspect(host.Decl.Body, func(n ast.Node) bool {
+		as, ok := n.(*ast.AssignStmt)
+		if !ok {
+			return true
+		}
+		for i, l := range as.Lhs {
+			if lid, ok := l.(*ast.Ident); ok && info.ObjectOf(lid) == obj {
+				nDef++
+				def, k = as, i
+			}
+		}
+		return true
+	})
+	if nDef != 1 || def == nil || len(def.Rhs) != 1 {
+		return nil, host
+	}
+	call, ok := ast.Unparen(def.Rhs[0]).(*ast.CallExpr)
+	if !ok {
+		if len(def.Lhs) == 1 {
+			return c.originCall(host, def.Rhs[0], depth+1)
+		}
+		return nil, host
+	}
+	f := gf.StaticCallee(info, call)
+	if f == nil {
+		return call, host
+	}
+	h := c.P.FuncInfoOf(f)
+	if h == nil || h.Decl.Body == nil || h.Pkg != host.Pkg || len(def.Lhs) < 2 {
+		return call, host
+	}
+	sig := f.Type().(*types.Signature)
+	if sig.Results().Len() != len(def.Lhs) {
+		return call, host
+	}
+	// the helper's returns
+	var origin *ast.CallExpr
+	var oh *load.FuncInfo
+	agree := true
+	ownNodes(h.Decl.Body, func(n ast.Node) {
+		ret, ok := n.(*ast.ReturnStmt)
+		if !ok || len(ret.Results) != len(def.Lhs) || isNilExpr(h.Pkg.TypesInfo, ret.Results[k]) {
+			return
+		}
+		oc, ohh := c.originCall(h, ret.Results[k], depth+1)
+		if oc == nil {
+			agree = false
+			return
+		}
+		if origin != nil && gf.StaticCallee(ohh.Pkg.TypesInfo, oc) != gf.StaticCallee(oh.Pkg.TypesInfo, origin) {
+			agree = false
+		}
+		origin, oh = oc, ohh
+	})
+	if agree && origin != nil {
+		return origin, oh
+	}
+	return call, host
 }
